@@ -16,7 +16,7 @@ from ..flow import Flow, lexically_inside
 
 FILESET = "typhon/files/fileset.py"
 HCOMMON = "typhon/files/handlers/common.py"
-EXPECT = {"C15.order": 5, "C15.load": 3, "C15.register": 1, "C15.format": 3, "C15.lookup": 3}
+EXPECT = {"C15.order": 6, "C15.load": 3, "C15.register": 1, "C15.format": 3, "C15.lookup": 3}
 
 
 def _write_mode(call):
@@ -99,6 +99,18 @@ def rule_order(ctx):
                     late.append(norm(c))
         ctx.ob("FileSet.save_cache.final", not late, "writes after the rename: %s" % late,
                "none - the rename is the last effect", node=m, func=f)
+    # 4b. the save is performed whenever a file name is given: no other condition skips it
+    guards = []
+    returns_before = [r for r in flow.stmts if isinstance(r, ast.Return) and r.lineno < enclosing_stmt(w).lineno]
+    n_ = parent(enclosing_stmt(w))
+    while n_ is not None and not isinstance(n_, ast.FunctionDef):
+        if isinstance(n_, ast.If):
+            guards.append(norm(n_.test))
+        n_ = parent(n_)
+    ctx.ob("FileSet.save_cache.unconditional", guards == ["%s is not None" % target] and not returns_before,
+           "write guarded by %s; earlier returns: %s" % (guards, [norm(r) for r in returns_before] or "none"),
+           "`if filename is not None:` only - the cache in memory is saved whatever it contains (an 'unchanged size' short cut keeps a stale document)",
+           node=enclosing_stmt(w), func=f)
     # 5. complete document: one json.dump of the list of all cached infos
     dumps = calls_in(f.node, "json.dump") + [c for c in calls_in(f.node, "dump") if dotted(c.func) != "json.dump"]
     okd = False
